@@ -145,6 +145,7 @@ func (c *FnCtx) evalGhost(fn *ssa.Function, args []Value, st *State, oldSt *Stat
 	defer func() { c.oldVals, c.oldMode = savedOld, savedMode }()
 	if oldSt != nil && fnUsesOld(fn) {
 		c.oldVals = map[ssa.Instruction]Value{}
+		c.oldBinders = map[*ssa.Call]*Term{}
 		c.oldMode = 1
 		pre := &State{R: st.R, P: st.P, heap: map[string]*Term{}, alpha: st.alpha}
 		for k, v := range oldSt.heap {
@@ -301,7 +302,60 @@ func (fr *frame) enterLoop(li *loopInfo, entry *State) *State {
 		li.dec0 = nil
 		fr.autoVariant(li, st)
 	}
+	fr.autoRangeInv(li, st)
 	return st
+}
+
+// autoRangeInv: the compiler's range-over-slice idiom  i = phi(-1, i+1); if i+1 < n { body } else { exit }
+// with n computed before the loop keeps i < n (or n < 0): it holds on entry (i = -1) and the back edge
+// carries i+1, which the header test has just bounded. Assumed at the loop head so that i+1 cannot wrap.
+func (fr *frame) autoRangeInv(li *loopInfo, st *State) {
+	h := li.header
+	if len(h.Instrs) == 0 {
+		return
+	}
+	ifi, ok := h.Instrs[len(h.Instrs)-1].(*ssa.If)
+	if !ok || len(h.Succs) != 2 || li.body[h.Succs[1]] {
+		return
+	}
+	bo, ok := ifi.Cond.(*ssa.BinOp)
+	if !ok || bo.Op.String() != "<" {
+		return
+	}
+	x, ok := bo.X.(*ssa.BinOp)
+	if !ok || x.Op.String() != "+" || x.Block() != h {
+		return
+	}
+	phi, ok := x.X.(*ssa.Phi)
+	if !ok || phi.Block() != h {
+		return
+	}
+	if k, ok := x.Y.(*ssa.Const); !ok || k.Value == nil || k.Int64() != 1 {
+		return
+	}
+	if ins, ok := bo.Y.(ssa.Instruction); ok && li.body[ins.Block()] {
+		return
+	}
+	for k, e := range phi.Edges {
+		pred := h.Preds[k]
+		if li.body[pred] {
+			if e != ssa.Value(x) {
+				return
+			}
+		} else {
+			cst, ok := e.(*ssa.Const)
+			if !ok || cst.Value == nil || cst.Int64() != -1 {
+				return
+			}
+		}
+	}
+	i, ok1 := fr.regs[phi].(*Term)
+	n, ok2 := fr.operand(bo.Y, st).(*Term)
+	if !ok1 || !ok2 {
+		return
+	}
+	f := fr.c.f
+	fr.c.assume(st, f.Or(f.Lt(i, n), f.Lt(n, f.Int(0))))
 }
 
 // autoVariant recognises counting loops: header condition `x < n` where x is a header phi i or i+1
